@@ -225,7 +225,7 @@ def run_correspondence(harness, prop, tier, seed, outdir):
     if rc != 0:
         # the harness process itself died (abort / stack overflow): that is a C05-type event
         cur = os.path.join(outdir, "current_case.txt")
-        case = open(cur).read().strip() if os.path.exists(cur) else ""
+        case = open(cur, "rb").read().split(b"\0")[0].decode("utf-8", "replace").strip() if os.path.exists(cur) else ""
         hang = os.path.exists(os.path.join(outdir, "hang.txt"))
         return dict(died=True, log=out[-3000:], rc=rc, case=case, hang=hang)
     driver = os.path.join(LEAN, ".lake", "build", "bin", "jmdriver")
